@@ -170,6 +170,7 @@ def main(tier, seed, only=None):
     groups.append(dict(H.GROUP, cases=H.cases(thorough, seed)))
     groups.append(dict(H.GROUP_RESULTS, cases=H.result_cases(thorough)))
     groups.append(dict(H.GROUP_LP, cases=H.lp_cases(thorough)))
+    groups.append(dict(H.GROUP_HASH, cases=H.hash_cases(thorough, seed)))
     if not only or "options_object_survives_a_run" in only:
         # third carrier: run_model_no_trade hands ONE options dictionary to every country of a batch; the only code that rewrites options per country is the
         # known-to-fail table.  CrossHair (symbolic country code and option choice) decides that the rewrite goes to a private copy.
